@@ -916,7 +916,7 @@ func (e *Env) callExpr(ex *ast.CallExpr) (SVal, error) {
 	return mkU(t), nil
 }
 
-var eventPrefixes = []string{"callfn", "call", "hook", "lock", "unlock", "trylock", "go", "chsend", "chrecv", "chclose", "loop"}
+var eventPrefixes = []string{"callfn", "call", "hook", "lock", "unlock", "trylock", "go", "spawn", "chsend", "chrecv", "chclose", "loop"}
 
 // normEventName turns the contract spelling `call.F` into the internal event name `call:F`.
 func normEventName(n string) string {
